@@ -208,6 +208,37 @@ def build(env, kind, guards, start_upper_outer=False, capture=None, pre=None, pf
     return eq, mesh, t, sym
 
 
+def chi_mask_slices(names):
+    """evaluate, in the namespace `names` (topology integers as SymInt, myg), the (lower, upper) bounds of the slices that the current
+    source sets to NaN in chi; simple helper assignments between `myg = ...` and that loop are executed first"""
+    src = textwrap.dedent(inspect.getsource(meshm.BoutMesh.writeGridfile))
+    fn = ast.parse(src).body[0]
+    body = [n for n in fn.body if isinstance(n, ast.With)][0].body
+    i_myg = next(i for i, n in enumerate(body) if isinstance(n, ast.Assign) and ast.unparse(n.targets[0]) == "myg")
+    i_for = next(i for i, n in enumerate(body) if isinstance(n, ast.For) and "chi.centre" in ast.unparse(n.iter))
+    ns = dict(names)
+    for st in body[i_myg + 1:i_for]:
+        if isinstance(st, ast.Assign) and len(st.targets) == 1 and isinstance(st.targets[0], ast.Name):
+            try:
+                ns[st.targets[0].id] = eval(compile(ast.Expression(st.value), "<helper>", "eval"), {}, ns)
+            except core.PathAbort:
+                raise
+            except Exception:
+                pass
+    out = []
+    for st in body[i_for].body:
+        if isinstance(st, ast.Assign) and "nan" in ast.unparse(st.value):
+            ysl = st.targets[0].slice.elts[1]
+            lo = None if ysl.lower is None else eval(compile(ast.Expression(ysl.lower), "<lo>", "eval"), {}, ns)
+            hi = None if ysl.upper is None else eval(compile(ast.Expression(ysl.upper), "<hi>", "eval"), {}, ns)
+            out.append((lo, hi))
+        elif not isinstance(st, ast.Assign):
+            raise core.HarnessError("unexpected statement in the chi NaN mask loop: %s" % type(st).__name__)
+    if not out:
+        raise core.HarnessError("chi NaN mask statements not found")
+    return out
+
+
 def zi(x):
     if isinstance(x, SymInt):
         return x.e
@@ -311,6 +342,21 @@ def _mk(kind, guards, suo=False):
         band = z3.And(x >= z3.If(ix1_ < ix2_, ix1_, ix2_), x < z3.If(ix1_ < ix2_, ix2_, ix1_))
         env.claim("bout_decoding_equals_hypnotoad_adjacency_outside_intersep_band", ZB(z3.Implies(z3.And(dom, z3.Not(band)), H == Bf)))
         env.claim("ny_written_is_ny_noguards", ZB(nyng + z3.IntVal(0) == sum_noguards(mesh)))
+        # (e) chi is NaN exactly on the non-core part of the y range (positions in the file arrays, which include guard cells)
+        yf = zi(env.int("y_file"))
+        in_core = z3.BoolVal(False)
+        for rid, reg in mesh.regions.items():
+            if reg.equilibriumRegion.kind == "X.X":
+                _, _, y0, y1 = region_box(mesh, rid)
+                in_core = z3.Or(in_core, z3.And(yf >= y0, yf < y1))
+        names = {k: (v if env.mode != "sym" else (v if isinstance(v, SymInt) else SymInt(zi(v)))) for k, v in t.items()}
+        names["myg"] = g
+        masked = z3.BoolVal(False)
+        for lo, hi in chi_mask_slices(names):
+            lo_e = z3.IntVal(0) if lo is None else zi(lo)
+            hi_e = ny if hi is None else zi(hi)
+            masked = z3.Or(masked, z3.And(yf >= lo_e, yf < hi_e))
+        env.claim("chi_nan_mask_is_exactly_the_non_core_y_range", ZB(z3.Implies(z3.And(yf >= 0, yf < ny), masked == z3.Not(in_core))))
         # (d) ordering
         j11, j21, j12, j22, nyi = [zi(t[k]) for k in ("jyseps1_1", "jyseps2_1", "jyseps1_2", "jyseps2_2", "ny_inner")]
         ix1, ix2 = zi(t["ixseps1"]), zi(t["ixseps2"])
